@@ -139,6 +139,12 @@ func (w *World) loop() {
 			time.Sleep(d)
 			continue
 		}
+		if w.plan.Burst {
+			w.deliverBurst(pend)
+			synctest.Wait()
+			w.processCommits()
+			continue
+		}
 		idx := w.st.Draw(len(pend), "pick")
 		p := pend[idx]
 		if w.sched.Log.Keep {
@@ -202,6 +208,82 @@ func (w *World) deliver(p *core.Pending) {
 	default:
 		w.harnessFail("unknown pending kind %q", p.Kind)
 		w.sched.Release(p, stopSignal{})
+	}
+}
+
+// deliverBurst releases a drawn set of pending events together. Every
+// decision (membership, answers, faults) is drawn before the first goroutine
+// is resumed, so the decision vector is independent of how the released trees
+// interleave; synctest.Wait before and after is a happens-before barrier for
+// the race detector, so exactly the code the released trees run until they
+// park again is mutually unordered (apart from shovel's own synchronisation).
+func (w *World) deliverBurst(pend []*core.Pending) {
+	var chosen []*core.Pending
+	for _, p := range pend {
+		if w.st.Draw(2, "burst-member") == 1 {
+			chosen = append(chosen, p)
+		}
+	}
+	if len(chosen) == 0 {
+		chosen = append(chosen, pend[w.st.Draw(len(pend), "pick")])
+	}
+	type rel struct {
+		p *core.Pending
+		v any
+	}
+	var rels []rel
+	for _, p := range chosen {
+		if !w.sched.Take(p) {
+			continue // a lock request disabled by an earlier grant of this burst
+		}
+		switch p.Kind {
+		case "step":
+			ar, ok := p.Data.(actorRef)
+			if !ok {
+				rels = append(rels, rel{p, nil})
+				continue
+			}
+			if ar.gen != w.gen {
+				rels = append(rels, rel{p, stopSignal{}})
+				continue
+			}
+			w.mu.Lock()
+			ar.p.inCall = true
+			ar.p.callStart = w.step
+			ar.p.curAtCallStart = ar.p.curNum
+			w.mu.Unlock()
+			w.logf("step %s", ar.p.key)
+			rels = append(rels, rel{p, nil})
+		case "lock":
+			w.logf("%s", p.Key)
+			rels = append(rels, rel{p, nil})
+		case "pg":
+			ev := p.Data.(*fakepg.Event)
+			w.stMu.Lock()
+			d := w.decidePG(ev)
+			w.stMu.Unlock()
+			d.crash = 0
+			w.logf("%s -> %d%s", p.Key, d.v, d.code)
+			rels = append(rels, rel{p, d})
+		case "http":
+			ev := p.Data.(*httpEvent)
+			res := w.serveHTTP(ev)
+			if res.err == errStall {
+				continue // taken and never answered: the client's timeout fires
+			}
+			rels = append(rels, rel{p, res})
+		default:
+			w.harnessFail("unknown pending kind %q", p.Kind)
+			rels = append(rels, rel{p, stopSignal{}})
+		}
+	}
+	w.stat("burst_windows", 1)
+	if len(rels) > 1 {
+		w.stat("burst_windows_concurrent", 1)
+		w.stat("burst_events_concurrent", len(rels))
+	}
+	for _, r := range rels {
+		w.sched.Send(r.p, r.v)
 	}
 }
 
